@@ -12,7 +12,9 @@
 (* each with a fixed home: S or a relay.                                   *)
 (*                                                                         *)
 (*   lsubs        leaves subscribed at S                                   *)
-(*   conn[r]      relay r is connected (= subscribed at S)                 *)
+(*   alive[r]     relay r runs (a PersistentRemoteSuperior exists)         *)
+(*   conn[r]      relay r's link to the node it dialled is up (= it is a   *)
+(*                collector of that node's pool)                           *)
 (*   rsubs[r]     leaves subscribed at relay r                             *)
 (*   tasks[t]     NoTask, or [kind, target, open, q]: q[src] is what the   *)
 (*                waiter's channel holds from source src (a leaf of S or a *)
@@ -31,6 +33,12 @@
 (*   M4  a report through a relay is tagged with the relay;                *)
 (*   M5  a report to a full channel blocks its sender: the environment of  *)
 (*       this model does not send one (the wedge replay does).             *)
+(*   M6  a relay whose link breaks stays up (PersistentRemoteSuperior):    *)
+(*       Outage / Recover.  Its collectors stay subscribed, it keeps its   *)
+(*       last quality task, further relays stay connected to its pool;     *)
+(*       reports from below it are lost until it has dialled again; on     *)
+(*       recovery it is a new collector of its parent and is handed the    *)
+(*       parent's current quality task, which it hands on (again).         *)
 (* Subscribe / Unsubscribe of an Auto leaf are the start and the stop of   *)
 (* its LocalCollector.                                                     *)
 (***************************************************************************)
@@ -51,9 +59,10 @@ Sources == Leaves \cup Relays
 Direct == {c \in Leaves : Home[c] = "S"}
 Under(r) == {c \in Leaves : Home[c] = r}
 
-Init == R = [lsubs |-> {}, conn |-> [r \in Relays |-> FALSE], rsubs |-> [r \in Relays |-> {}],
+InitR == [lsubs |-> {}, alive |-> [r \in Relays |-> FALSE], conn |-> [r \in Relays |-> FALSE], rsubs |-> [r \in Relays |-> {}],
              tasks |-> [t \in TaskIds |-> NoTask], latest |-> None, rlatest |-> [r \in Relays |-> None],
              got |-> [c \in Leaves |-> [t \in TaskIds |-> 0]]]
+Init == R = InitR
 
 Give(x, cs, t) == [x EXCEPT !.got = [c \in Leaves |-> IF c \in cs THEN [x.got[c] EXCEPT ![t] = @ + 1] ELSE x.got[c]]]
 RECURSIVE Root(_)
@@ -75,22 +84,32 @@ RelayRecv(x, r, t) ==
   IN RelaysRecv(y, {q \in Children(r) : y.conn[q]}, t)
 RelaysRecv(x, rs, t) == IF rs = {} THEN x ELSE LET r == CHOOSE r \in rs : TRUE IN RelaysRecv(RelayRecv(x, r, t), rs \ {r}, t)
 Connected(x) == {r \in Relays : x.conn[r]}
+\* every link from node n up to S is up
+RECURSIVE LinkUp(_, _)
+LinkUp(x, n) == IF n = "S" THEN TRUE ELSE x.conn[n] /\ LinkUp(x, RHome[n])
+NodeUp(x, n) == IF n = "S" THEN TRUE ELSE x.alive[n]
 
 Subscribed(x, c) == IF Home[c] = "S" THEN c \in x.lsubs ELSE c \in x.rsubs[Home[c]]
-CanSubscribe(x, c) == IF Home[c] = "S" THEN TRUE ELSE x.conn[Home[c]]
+CanSubscribe(x, c) == NodeUp(x, Home[c])
 Subscribe(x, c) ==
   IF Home[c] = "S" THEN (LET y == [x EXCEPT !.lsubs = @ \cup {c}] IN IF x.latest # None THEN Give(y, {c}, x.latest) ELSE y)
   ELSE LET r == Home[c] y == [x EXCEPT !.rsubs[r] = @ \cup {c}] IN IF x.rlatest[r] # None THEN Give(y, {c}, x.rlatest[r]) ELSE y
 Unsubscribe(x, c) == IF Home[c] = "S" THEN [x EXCEPT !.lsubs = @ \ {c}] ELSE [x EXCEPT !.rsubs[Home[c]] = @ \ {c}]
 
 \* a relay dials the pool of its parent node, which must be up; it is handed the parent's current quality task
-CanConnect(x, r) == ~x.conn[r] /\ (IF RHome[r] = "S" THEN TRUE ELSE x.conn[RHome[r]])
+CanConnect(x, r) == ~x.alive[r] /\ NodeUp(x, RHome[r])
 ParentLatest(x, r) == IF RHome[r] = "S" THEN x.latest ELSE x.rlatest[RHome[r]]
-Connect(x, r) == LET y == [x EXCEPT !.conn[r] = TRUE] IN IF ParentLatest(x, r) # None THEN RelayRecv(y, r, ParentLatest(x, r)) ELSE y
+Connect(x, r) == LET y == [x EXCEPT !.alive[r] = TRUE, !.conn[r] = TRUE] IN IF ParentLatest(x, r) # None THEN RelayRecv(y, r, ParentLatest(x, r)) ELSE y
 \* a relay that goes away takes everything below it with it
-Disconnect(x, r) == [x EXCEPT !.conn = [q \in Relays |-> IF q \in Desc(r) THEN FALSE ELSE @[q]],
+Disconnect(x, r) == [x EXCEPT !.alive = [q \in Relays |-> IF q \in Desc(r) THEN FALSE ELSE @[q]],
+                              !.conn = [q \in Relays |-> IF q \in Desc(r) THEN FALSE ELSE @[q]],
                               !.rsubs = [q \in Relays |-> IF q \in Desc(r) THEN {} ELSE @[q]],
                               !.rlatest = [q \in Relays |-> IF q \in Desc(r) THEN None ELSE @[q]]]
+\* M6: the link of a running relay breaks; the relay dials again after its retry interval
+CanOutage(x, r) == x.conn[r]
+Outage(x, r) == [x EXCEPT !.conn[r] = FALSE]
+CanRecover(x, r) == x.alive[r] /\ ~x.conn[r]
+Recover(x, r) == LET y == [x EXCEPT !.conn[r] = TRUE] IN IF ParentLatest(x, r) # None THEN RelayRecv(y, r, ParentLatest(x, r)) ELSE y
 
 CanAdd(x, t) == x.tasks[t] = NoTask            \* a task id is used once
 EmptyQ == [s \in Sources |-> <<>>]
@@ -109,8 +128,9 @@ RECURSIVE SumLen(_, _)
 SumLen(q, S) == IF S = {} THEN 0 ELSE LET s == CHOOSE s \in S : TRUE IN Len(q[s]) + SumLen(q, S \ {s})
 Unread(x, t) == SumLen(x.tasks[t].q, Sources)
 Blocks(x, t) == Accepts(x, t) /\ Unread(x, t) >= QCap
-CanReport(x, c) == IF Home[c] = "S" THEN TRUE ELSE x.conn[Home[c]]
-Report(x, c, t, p) == IF Accepts(x, t) THEN [x EXCEPT !.tasks[t].q[Src(c)] = Append(@, p)] ELSE x      \* M3
+CanReport(x, c) == NodeUp(x, Home[c])
+\* M6: a report travels only over links that are up
+Report(x, c, t, p) == IF Accepts(x, t) /\ LinkUp(x, Home[c]) THEN [x EXCEPT !.tasks[t].q[Src(c)] = Append(@, p)] ELSE x      \* M3
 CanTake(x, t, s) == x.tasks[t] # NoTask /\ x.tasks[t].q[s] # <<>>
 Take(x, t, s) == [x EXCEPT !.tasks[t].q[s] = Tail(@)]
 RemoveTask(x, t) == IF x.tasks[t] = NoTask THEN x
@@ -118,6 +138,7 @@ RemoveTask(x, t) == IF x.tasks[t] = NoTask THEN x
 
 Next == \/ \E c \in Leaves : (CanSubscribe(R, c) /\ R' = Subscribe(R, c)) \/ R' = Unsubscribe(R, c)
         \/ \E r \in Relays : (CanConnect(R, r) /\ R' = Connect(R, r)) \/ R' = Disconnect(R, r)
+        \/ \E r \in Relays : (CanOutage(R, r) /\ R' = Outage(R, r)) \/ (CanRecover(R, r) /\ R' = Recover(R, r))
         \/ \E t \in TaskIds : CanAdd(R, t) /\ (R' = AddBroadcast(R, t) \/ \E tg \in Sources : R' = AddTarget(R, t, tg))
         \/ \E c \in Leaves \ Auto, t \in TaskIds, p \in Payloads : CanReport(R, c) /\ ~Blocks(R, t) /\ R' = Report(R, c, t, p)
         \/ \E t \in TaskIds, s \in Sources : CanTake(R, t, s) /\ R' = Take(R, t, s)
@@ -132,7 +153,7 @@ TargetOnly == \A t \in TaskIds : Added(t) /\ R.tasks[t].kind = "target" =>
 \* the current broadcast task has reached every collector subscribed anywhere in the connected tree
 BroadcastReaches == \A t \in TaskIds : R.latest = t =>
                       /\ \A c \in R.lsubs : R.got[c][t] >= 1
-                      /\ \A r \in Connected(R) : R.rlatest[r] = t /\ \A c \in R.rsubs[r] : R.got[c][t] >= 1
+                      /\ \A r \in {q \in Relays : LinkUp(R, q)} : R.rlatest[r] = t /\ \A c \in R.rsubs[r] : R.got[c][t] >= 1
 \* one hand-over per subscription: nothing is handed over unless a task is added, a relay connects or a leaf subscribes
 OncePerEvent == [][\A c \in Leaves, t \in TaskIds : R'.got[c][t] <= R.got[c][t] + 1]_R
 \* reports go only to the waiter of the task they name, appended to that source's stream, nothing else disturbed
@@ -142,6 +163,10 @@ ReportOnlyToNamed == [][\A t \in TaskIds, s \in Sources : Added(t) /\ R'.tasks[t
                           /\ \A u \in TaskIds, v \in Sources : <<u, v>> # <<t, s>> /\ Added(u) => R'.tasks[u].q[v] = R.tasks[u].q[v]]_R
 NoDeliveryAfterRemove == [][\A t \in TaskIds : Added(t) /\ ~R.tasks[t].open => Unread(R', t) <= Unread(R, t)]_R
 Bounded == \A t \in TaskIds : Added(t) => Unread(R, t) <= QCap
-\* a relay is up only while the node it dialled is
-TreeUp == \A r \in Relays : R.conn[r] /\ RHome[r] # "S" => R.conn[RHome[r]]
+\* a relay runs only while the node it dialled does; a link is up only between running nodes
+TreeUp == \A r \in Relays : (R.alive[r] => NodeUp(R, RHome[r])) /\ (R.conn[r] => R.alive[r])
+\* M6: an outage loses no subscription and no remembered task; nothing is handed over during it
+OutageKeeps == [][\A r \in Relays : R.conn[r] /\ ~R'.conn[r] /\ R'.alive[r] => R'.rsubs = R.rsubs /\ R'.rlatest = R.rlatest /\ R'.got = R.got /\ R'.tasks = R.tasks]_R
+\* M6: nothing from below a broken link reaches a waiter
+LostWhileDown == [][\A t \in TaskIds, s \in Relays : Added(t) /\ R'.tasks[t] # NoTask /\ Len(R'.tasks[t].q[s]) > Len(R.tasks[t].q[s]) => R.conn[s]]_R
 =============================================================================
